@@ -17,7 +17,7 @@ import numpy as np, pandas as pd
 from . import common as C
 
 PROP = "C18"; LEVEL = "exploration"; P_TIER = True
-SCOPE = {"quick": "45 public operations (GroupBy reductions incl. transform, agg, apply/median/quantile, cumulative, rolling, shift/diff, ema with and without times, head/tail/nth, group_nearby_members, ratio, density, crosstab, value_counts; emas.ema) "
+SCOPE = {"quick": "46 public operations (GroupBy reductions incl. transform, agg, apply/median/quantile, cumulative, rolling, shift/diff, ema with and without times and group-sorted, head/tail/nth, group_nearby_members, ratio, density, crosstab, value_counts; emas.ema) "
                   "and 32 array-level entry points (emas.ema_grouped called positionally / by keyword / with times, numba.group_* at n_threads 1 and 2, rolling_*, cum*, group_nearby_members) x each array argument (values, second of two values, boolean mask, times, second key) x length offset -2,-1,+1,+2 (for -1/+1 also with the other optional array arguments absent, and with all of them of the same wrong length) "
                   "x key rows in {[0,0],[0,1,0],[0,0,1,1]} x keys as ndarray / pandas Series x argument as ndarray / pandas Series; pandas index of the argument in {reversed, shifted, duplicated, string labels} against keys with a default or a custom index "
                   "(or against the other pandas arguments when the keys are plain; not for numba.*, whose keys are integer codes without an index); aligned controls (all plain, all on the keys' index, pandas on index-free keys, plain on indexed keys); positional masks with positions in {-n-1,-n,-1,0,n-1,n,n+1}",
@@ -104,6 +104,7 @@ def _build_ops():
     op("GroupBy.ema", VM, lambda gb, a, c: gb.ema(_V(a, c), alpha=0.5, mask=a["mask"]))
     op("GroupBy.ema[times]", ("values", "mask", "times"), lambda gb, a, c: gb.ema(a["values"], halflife="1h", times=a["times"], mask=a["mask"]))
     op("GroupBy.ema[index_by_groups]", ("values", "mask"), lambda gb, a, c: gb.ema(a["values"], alpha=0.5, mask=a["mask"], index_by_groups=True))
+    op("GroupBy.ema[times,index_by_groups]", ("values", "mask", "times"), lambda gb, a, c: gb.ema(a["values"], halflife="1h", times=a["times"], mask=a["mask"], index_by_groups=True))
     for r in ("head", "tail", "nth"):
         op(f"GroupBy.{r}", ("values", "values2"), lambda gb, a, c, r=r: getattr(gb, r)(_V(a, c), n=1))
         op(f"GroupBy.{r}[keep_input_index]", ("values", "values2"), lambda gb, a, c, r=r: getattr(gb, r)(_V(a, c), n=1, keep_input_index=True))
